@@ -1188,6 +1188,9 @@ func w8Cache(r *verifsim.Run) {
 	w.faulty = c.Intn(3, "faulty") != 0
 	w.conc = c.Intn(3, "concurrent_getters") == 1
 	w.lastParkIdx = -1
+	if w.conc && regime == 2 {
+		regime = 0 // more of the concurrent runs without size pressure: there the race scenario may change values
+	}
 	class := c.Intn(3, "strclass")
 	var n int
 	switch {
